@@ -37,6 +37,8 @@ def prop_of(prov, item):
         return MERGED_ERR.get(item[1], "C05") if asp == "err" else MERGED.get(asp, "C05")
     if prov in ("merge", "merge-zero"):
         return "C05"
+    if prov == "concurrent":
+        return "C11"
     if prov == "dvwalk-built":
         return "C03"
     if prov == "dvwalk-merged":
@@ -71,6 +73,7 @@ def plan_for(pid, tier):
         "C06": [("rich", 10 if q else 120, 10), ("mergey", 30 if q else 300, 10), ("leanmerge", 1 if q else 8, 0)],
     }
     P["C07"] = [("rich", 16 if q else 150, 6), ("mergey", 10 if q else 100, 6), ("lean", 1 if q else 6, 3)]
+    P["C11"] = [("readstress", 3 if q else 30, 4 if q else 6, "race")]
     P["C12"] = [("syn", 30 if q else 300, 5), ("rich", 4 if q else 30, 4)]
     P["C13"] = [("syn", 40 if q else 400, 10)]
     if pid in ("C12", "C13"):
@@ -84,6 +87,10 @@ def plan_for(pid, tier):
     if pid == "C03":
         import compcheck
         common["pre"] = compcheck.dvvisit_stage
+    if pid == "C11":
+        import compcheck
+        common["pre"] = compcheck.ctxpool_stage
+        common.update(attr_all=True, walks=60 if q else 600)
     if pid == "C07":
         import compcheck
         common["pre"] = compcheck.postiter_stage
@@ -291,7 +298,7 @@ def run_life_check(pid, tier, seed, replay=None, pre=None):
             log("KNOWN-FINDING: property=%s %s (%s; %d occurrences)" % (kf[k][0]["property"], kf[k][0]["what"], k, kf[k][1]))
         for n in sorted(notes):
             log("NOTE: mismatch attributed to %s, not to this check: %s x%d" % (n[0], n[1], notes[n]))
-        confirmed = confirm(pid, zx, sc, allp, viol, known, plan, seed, ranges)
+        confirmed = confirm(pid, zx, sc, allp, viol, known, plan, seed, ranges, pre=pre)
         for i, r in enumerate(RACES[:2]):
             if "/zapx/" in r or REPO in r:
                 log("data race reported by the race detector inside the library:\n" + r[:1500])
@@ -344,9 +351,9 @@ def classify(pid, plan, mism, known):
     return viol, kf, notes
 
 
-def confirm(pid, zx, sc, trace, viol, known, plan, seed, ranges, limit=3):
+def confirm(pid, zx, sc, trace, viol, known, plan, seed, ranges, limit=3, pre=None):
     """Re-runs the scenario of each violation candidate from its recorded inputs; reports only reproduced ones."""
-    confirmed, seen = [], set()
+    confirmed, seen, unrepro = [], set(), []
     for v in viol:
         if v["key"] in seen or len(confirmed) >= limit:
             continue
@@ -369,13 +376,21 @@ def confirm(pid, zx, sc, trace, viol, known, plan, seed, ranges, limit=3):
             same = reproduced(rerun_slice(zx, sc, sl))
             if same:
                 log("note: %s needs the preceding history of the process to manifest (%d events replayed)" % (v["key"], len(lines)))
+        if not same and v["prov"] == "concurrent":
+            # schedule-dependent: the recorded execution itself is the evidence (the oracle is deterministic)
+            log("note: %s was observed under concurrency and does not reproduce sequentially" % v["key"])
+            lines = scenario_slice(trace, v["l"])
+            same = True
         if not same:
             log("UNREPRODUCED: %s at line %d did not reproduce from its inputs (treated as inconclusive)" % (v["key"], v["l"]))
-            raise Inconclusive("violation candidate did not reproduce: %s" % v["key"])
+            unrepro.append(v["key"])
+            continue
         path = save_replay(pid, seed, len(confirmed), {"property": pid, "key": v["key"], "prov": v["prov"], "detail": trunc(v["item"], 2000),
                                                        "family": "life", "events": [json.loads(x) for x in lines]})
         log("mismatch %s at trace line %d: %s" % (v["key"], v["l"], trunc(v["item"])))
         confirmed.append(path)
+    if unrepro and not confirmed and not (pre and pre["paths"]):
+        raise Inconclusive("violation candidates did not reproduce: %s" % ", ".join(unrepro))
     return confirmed
 
 
